@@ -72,6 +72,33 @@ def r1_tables(run, F):
                    "escape \\%s inside %s...%s: alpha %s, delta %s (None = rejected as E162)" % (chr(c), chr(q), chr(q), a, d),
                    sample={"quote": chr(q), "escape": chr(c), "alpha": a, "delta": d})
     run.floor("R1-ESCAPES", 16)
+    # \u{...}: both lexers accept the same number of hex digits
+    def unicode_digit_bounds(T, quote):
+        arm = T.quote_arms.get(quote)
+        ms = [m for m in hirq.matches(arm["body"]) if lexq.is_next(m["scrut"])] if arm else []
+        if len(ms) != 1:
+            return "?"
+        for a in ms[0]["arms"]:
+            if lexq.char_lits(a["pat"]) == [117]:
+                ranges = []
+                for n in walk(a["body"]):
+                    if n.get("k") == "Call" and str(hirq.callee(n) or "").endswith("RangeInclusive::new"):
+                        ranges.append(tuple(hirq.unwrap_trivial(x).get("v") for x in n["a"][:2]))
+                    if n.get("k") == "Struct" and str(n.get("path", "")).endswith(("ops::Range", "ops::RangeInclusive")):
+                        ranges.append(tuple(hirq.unwrap_trivial(f["e"]).get("v") for f in n["fields"]))
+                    if n.get("k") == "Binary" and n.get("op") in ("Le", "Lt", "Gt", "Ge") and any(
+                            x.get("k") == "MethodCall" and x.get("name") == "len" for x in walk(n)):
+                        ranges.append((n["op"], hirq.unwrap_trivial(n["rhs"]).get("v")))
+                ranges = [r for r in ranges if all(isinstance(x, (int, str)) and x is not None for x in r)]
+                return sorted(set(ranges), key=str) or None
+        return "no \\u arm"
+    for q in (34, 39):
+        ba, bd = unicode_digit_bounds(A, q), unicode_digit_bounds(D, q)
+        if "no \\u arm" in (ba, bd):
+            continue   # the missing arm itself is reported by the escape table comparison above
+        run.ob("R1-ESCAPES", "%s-literal \\u digit count" % ("string" if q == 34 else "char"), ba == bd, "%s / %s" % (F.where(A.body), F.where(D.body)),
+               "number of hex digits accepted in \\u{..}: first generation %s, second generation %s (None = unbounded: `\"\\u{0000041}\"` is 'A' for one "
+               "lexer and E162 for the other)" % (ba, bd))
     # identifier classes
     ia, idd = lexq.ident_continuation(F, "alpha"), lexq.ident_continuation(F, "delta")
     run.ob("R1-IDENT-CLASS", "continuation", ia == idd and len(ia) == 4, "%s / %s" % (wa, wd),
@@ -316,6 +343,9 @@ def check(run):
     r4b_payload_table(run, F)
     r5_accumulate(run, F, D)
     r6_digit_evidence(run, F, D)
+    # exact spans of the first generation: the per-line offset bookkeeping in lex() (shared with C13.R4 / R5)
+    from props import c13
+    c13.r4_lines(run, F)
     run.assume("alpha never sees '\\n' or a '\\r' directly before it: str::lines() strips them (C13.R4 checks the offset bookkeeping)")
 
 
